@@ -880,6 +880,11 @@ class Exec:
             if kind.startswith('PointerCoercion') or kind in ('PtrToPtr', 'Subtype'): return v
             if kind == 'FloatToFloat':
                 if isinstance(v, Opaque): return v
+                if isinstance(v, float):
+                    import struct as _st
+                    if rv[2].strip() != 'f32': return v
+                    try: return _st.unpack('f', _st.pack('f', v))[0]
+                    except OverflowError: return float('inf') if v > 0 else float('-inf')
                 if not (is_sym(v) and z3.is_fp(v)): raise Unsupported('FloatToFloat cast of %r' % (v,))
                 return z3.fpToFP(z3.RNE(), v, z3.Float32() if rv[2].strip() == 'f32' else z3.Float64())
             if kind == 'FloatToInt' and isinstance(v, float):
